@@ -278,8 +278,10 @@ def main(argv):
             fh.write('\n')
     for l in lines:
         print(l)
-    for e in errors:
-        print('HARNESS-ERROR: ' + e)
+    for e in errors[:3]:
+        print('HARNESS-ERROR: ' + e[-1500:])
+    if len(errors) > 3:
+        print('HARNESS-ERROR: ... %d more shards failed' % (len(errors) - 3))
     print('%s %s seed=%d evaluations=%d distinct_nontrivial=%d violations=%d known=%d wall=%.1fs' % (
         pid, a.tier, seed, evaluations, len(nontrivial), n_viol, len(known_hit), time.time() - t0))
     if not a.keep:
